@@ -35,10 +35,12 @@ def evaluate(ctx, P, env, cases, with_model=True):
         so, _ = core.run_lines_parallel([env["lhv"]], [cases[i].spec for i in spec_idx])
         s_outs = dict(zip(spec_idx, so))
     concrete, corr = [], []
+    group_why = P.judge_groups(cases, c_outs) if hasattr(P, "judge_groups") else {}
     for i, c in enumerate(cases):
         co = c_outs[i]
-        why = None
-        if c.judge is not None:
+        ctx.dist["c_result=" + (co.split(" ")[0].split("=")[0] if co else "empty")] += 1
+        why = group_why.get(i)
+        if why is None and c.judge is not None:
             try:
                 why = c.judge(co)
             except Exception as e:          # a judge must never hide a failure
